@@ -19,7 +19,7 @@ class Abort(BaseException):
 
 
 class Sched:
-    def __init__(self, chooser, trace_files, max_steps=400000, stall_s=30.0):
+    def __init__(self, chooser, trace_files, max_steps=400000, stall_s=120.0):
         self.chooser = chooser  # callable(step, runnable list, current) -> thread index
         self.trace_files = trace_files
         self.cv = threading.Condition()
